@@ -88,6 +88,18 @@ def evaluate(run, cases):
             for i, v in zip(ids, vs): verd[i] = v
     return verd
 
+def run_harness(binp, jobs, outdir):
+    """jobs: list of (proto, tier, seed, scen); runs conc_run for each (5 at a time), output to files"""
+    from concurrent.futures import ThreadPoolExecutor
+    os.makedirs(outdir, exist_ok=True)
+    def one(j):
+        proto, tier, seed, scen = j
+        f = os.path.join(outdir, "%s_%s.jsonl" % (proto, scen))
+        rc, out = C.sh("%s %s %s %d %s %s > %s" % (binp, proto, tier, seed, CORPUS, scen, f), timeout=2400)
+        return (j, f, rc, out)
+    with ThreadPoolExecutor(max_workers=5) as ex:
+        return list(ex.map(one, jobs))
+
 def check_C08(run, replay=None):
     tier = run.tier
     C.proof_stage(run, "C08")
@@ -95,38 +107,78 @@ def check_C08(run, replay=None):
     run.oblige("harness-build conc_run from the repository working tree (--cfg crux_verif)", ok, log[-1500:])
     if not ok:
         return
+    outdir = os.path.join(C.ALT or C.CACHE, "conc_out")
+    import shutil
+    shutil.rmtree(outdir, ignore_errors=True); os.makedirs(outdir, exist_ok=True)
+    files = []
     if replay:
         rp = json.load(open(replay))
         lines = "\n".join(json.dumps({"proto": c["proto"], "scen": c["scen"], "sched": c["sched"]}) for c in rp.get("cases", []))
-        rf = os.path.join(C.ALT or C.CACHE, "conc_replay.jsonl"); open(rf, "w").write(lines + "\n")
-        cmd = "%s replay %s" % (bins["conc_run"], rf)
+        rf = os.path.join(outdir, "replay_in.jsonl"); open(rf, "w").write(lines + "\n")
+        f = os.path.join(outdir, "replay.jsonl")
+        rc, out = C.sh("%s replay %s > %s" % (bins["conc_run"], rf, f), timeout=1200)
+        run.oblige("harness-run conc_run replay", rc == 0, out[-800:])
+        files.append(f)
     else:
-        cmd = "%s all %s %d %s" % (bins["conc_run"], tier, run.seed, CORPUS)
-    rc, out = C.sh(cmd, timeout=3000)
-    if rc != 0:
-        run.oblige("harness-run conc_run", False, out[-1500:]); return
-    cases, summaries = [], []
-    for l in out.splitlines():
-        if l.startswith("{"): cases.append(json.loads(l))
-        elif l.startswith("#"): summaries.append(l[1:].strip())
-    run.oblige("harness-run conc_run produced cases", len(cases) > 0, out[-400:])
-    hung = [c for c in cases if c["hung"]]
-    panicked = [c for c in cases if c["panic"]]
-    infeasible = [c for c in cases if not c["feasible"] and not c["hung"]]
-    good = [c for c in cases if c["feasible"] and not c["hung"]]
-    verd = evaluate(run, good)
-    hist = collections.Counter(); per_scen = collections.Counter(); vh = collections.Counter()
-    bad_ok, bad_model = [], []
-    for c, v in zip(good, verd):
-        hist[c["proto"]] += 1; per_scen[c["proto"] + ":" + c["scen"]] += 1; vh[str(v)] += 1
-        run.note_case(key_of(c), nontrivial=nontrivial(c))
-        run.cov["traces_validated_against_impl"] += 1
-        if v == 2 or c["panic"]: bad_ok.append(c)
-        elif v == 1: bad_model.append(c)
+        rc, out = C.sh("%s list %s" % (bins["conc_run"], tier), timeout=60)
+        jobs = [("all", tier, run.seed, "corpus")] + [(l.split()[0], tier, run.seed, l.split()[1]) for l in out.splitlines() if len(l.split()) == 2]
+        res = run_harness(bins["conc_run"], jobs, outdir)
+        bad = [(j, o[-300:]) for j, f, rc, o in res if rc != 0]
+        run.oblige("harness-run conc_run (%d scenario runs)" % len(jobs), not bad, json.dumps(bad[:3]))
+        files = [f for j, f, rc, o in res]
+    summaries = []
+    hist = collections.Counter(); per_scen = collections.Counter(); vh = collections.Counter(); tags = collections.Counter()
+    labels = collections.Counter()
+    def count_labels(c):
+        txt = []
+        if "slices" in c:
+            for sl in c["slices"]:
+                txt.append(sl["labels"]); labels["decision_%d" % sl["dec"]] += 1
+        else:
+            txt += [c["p1labels"], c["p3labels"]]
+        for t in txt:
+            for item in t.strip("[]").split(";"):
+                w = item.strip().split(" ")[0]
+                if w: labels[w] += 1
+    bad_ok, bad_model, hung, panicked, samples = [], [], [], [], []
+    n_cases = n_infeasible = n_good = 0
+    eval_failed = False
+    batch = []
+    def flush():
+        nonlocal batch, eval_failed, n_good
+        if not batch: return
+        verd = evaluate(run, batch)
+        for c, v in zip(batch, verd):
+            hist[c["proto"]] += 1; per_scen[c["proto"] + ":" + c["scen"]] += 1; vh[str(v)] += 1; tags[c["tag"]] += 1
+            run.note_case(key_of(c), nontrivial=nontrivial(c))
+            run.cov["traces_validated_against_impl"] += 1
+            count_labels(c)
+            n_good += 1
+            if v is None: eval_failed = True
+            elif v == 2 or c["panic"]:
+                if len(bad_ok) < 200: bad_ok.append(c)
+            elif v == 1:
+                if len(bad_model) < 200: bad_model.append(c)
+        if len(samples) < 3: samples.append(slim(batch[0]))
+        batch = []
+    for f in files:
+        if not os.path.exists(f): continue
+        for l in open(f):
+            if l.startswith("{"):
+                c = json.loads(l); n_cases += 1
+                if c["hung"]: hung.append(c)
+                elif not c["feasible"]: n_infeasible += 1
+                else:
+                    if c["panic"]: panicked.append(c)
+                    batch.append(c)
+                    if len(batch) >= 6000: flush()
+            elif l.startswith("#"): summaries.append(l[1:].strip())
+    flush()
+    run.oblige("harness produced cases", n_cases > 0, "")
     for c in hung: bad_ok.append(c)
-    run.oblige("no controlled run deadlocked or panicked (%d runs)" % len(cases), not hung and not panicked,
+    run.oblige("no controlled run deadlocked or panicked (%d runs)" % n_cases, not hung and not panicked,
                json.dumps([slim(c) for c in (hung + panicked)[:2]]))
-    run.oblige("correspondence model=implementation on %d controlled interleavings" % len(good), not bad_model and None not in verd,
+    run.oblige("correspondence model=implementation on %d controlled interleavings" % n_good, not bad_model and not eval_failed,
                json.dumps([slim(c) for c in bad_model[:3]]))
     run.oblige("C08_ok holds on every implementation run", not bad_ok, json.dumps([slim(c) for c in bad_ok[:3]]))
     if bad_ok:
@@ -138,17 +190,20 @@ def check_C08(run, replay=None):
         bad_model.sort(key=lambda c: len(c["sched"]))
         run.violation("correspondence", {"property": "C08", "what": "model and implementation differ on a controlled interleaving; the outcome predicates still hold on every implementation run seen",
                                          "cases": [slim(c) for c in bad_model[:10]], "broken": "correspondence Conc/*.v vs crux_core under the schedule controller"}, no_input=True)
-    run.cov["rule"] = ("depth-first enumeration of every interleaving (thread released at each schedule point) of small scenarios per protocol, "
-                       "corpus schedules first, thorough adds three-thread scenarios and seeded random schedules; a case is distinct by its sequence of "
-                       "(thread, point) events and non-trivial when some thread is preempted between two of its points (not a sequential composition)")
-    run.cov["samples"] = [slim(c) for c in (good[:2] + good[-1:])]
-    run.cov["exhaustive"] = all("exhaustive=true" in s for s in summaries) if summaries else False
-    run.extra["distribution"] = {"per_protocol": dict(hist), "per_scenario": dict(per_scen), "verdicts": dict(vh),
-                                 "infeasible_schedules": len(infeasible), "enumerations": summaries}
+    run.cov["rule"] = ("corpus schedules first; then depth-first enumeration of every interleaving (thread released at each schedule point) with at most k preemptions of each scenario "
+                       "(quick: k=3 for P2, k=2 for the Core-level scenarios under the P3 and P1 park sets, two callers; thorough: three-caller scenarios, larger k, the full P1 point set, and seeded random schedules); "
+                       "a case is distinct by its sequence of (thread, point) events and non-trivial when some thread is preempted between two of its points (the run is not a sequential composition of the calls)")
+    run.cov["samples"] = samples
+    # complete only within the preemption bound, so not claimed as an exhaustive enumeration
+    run.cov["exhaustive"] = False
+    run.extra["exhaustive_within_preemption_bound"] = bool(summaries) and all("exhaustive=true" in s for s in summaries)
+    run.extra["model_branch_coverage"] = dict(labels)
+    run.extra["distribution"] = {"per_protocol": dict(hist), "per_scenario": dict(per_scen), "verdicts": dict(vh), "by_origin": dict(tags),
+                                 "infeasible_schedules": n_infeasible, "enumerations": summaries}
     run.assumptions += [
         "sequentially consistent interleaving semantics: weak-memory behaviour (Arc::strong_count is a Relaxed load; the repaired code adds fence(Acquire); Acquire/Release pairs elsewhere) is outside the model",
         "OS preemption inside a region between two schedule points is not controlled: a region is treated as atomic by the controller (the model has finer steps)",
-        "the busy loop of QueuingExecutor::run_all on RunTask::Unavailable is a liveness matter: stated, not proved",
+        "the busy loop of QueuingExecutor::run_all on RunTask::Unavailable is a liveness matter: stated, not proved; the controller bounds it by a fairness rule (a thread that has spun twice is not scheduled while another thread can move)",
         "return values are not claimed linearisable: effects one call returns may have been caused by the other caller's input",
         "futures-channel mpsc, AtomicWaker, crossbeam-channel, std RwLock/Mutex are modelled as atomic operations, tied by correspondence only"]
     run.trusted += ["hand-written models coq/Conc/*.v", "harness/src/conc/*.rs: schedule controller, scenarios, translation of point traces to model labels",
